@@ -5,8 +5,9 @@
      onOutgoingFrameEnqueued : closed? ; borrow (managed) ; RLock: len==max? / found? ; Lock: closed? len==max? found?
                                ; insert + arm timer ;
                                on refusal give the borrowed id back (ignoring a failed release)
-     onIncomingFrameReceived : closed? ; lookup ; if last: delete, then (managed) release - a failed release
-                               returns BEFORE the frame is handed over ; then inFlightRequest.onFrameReceived
+     onIncomingFrameReceived : closed? ; lookup ; if last: delete, then (managed) release - a failed release is
+                               remembered and reported only if the hand-over succeeds (fix e396228) ; then
+                               inFlightRequest.onFrameReceived
      onFrameReceived         : request closed -> error ; room -> enqueue, last ? stop timer + close(nil)
                                : re-arm timer ; no room -> close(error)
      close (handler)         : CAS closed ; every registered request: delete + close(error) ; close pool channel
@@ -199,7 +200,12 @@ Definition deliver (s : state) (k : Z) (last : bool) (tag : Z) : state * out :=
         let s1 := set_inflight s (remove_key k (inflight s)) in
         if managed r then
           match release s1 k with
-          | None => (add_finished s1 r, ODeliverErr EReleaseFailed)
+          | None =>
+              (* fix e396228: a failed release (handler closed meanwhile; sequentially: pool full) does not stop the delivery,
+                 the request is no longer in the table and nobody else would complete it; the release error is reported
+                 only when the delivery itself succeeded *)
+              let '(r', o) := on_frame (cfgP s) (now s) (cfgT s) r true tag in
+              (add_finished s1 r', match o with ODelivered => ODeliverErr EReleaseFailed | _ => o end)
           | Some s2 => let '(r', o) := on_frame (cfgP s) (now s) (cfgT s) r true tag in (add_finished s2 r', o)
           end
         else let '(r', o) := on_frame (cfgP s) (now s) (cfgT s) r true tag in (add_finished s1 r', o)
